@@ -65,6 +65,9 @@ def frame(call):
     ts = [_relabel(t, _leafcycle([1, 'x', [1, 2], None])) for t in all_trees(4)]
     us = [_relabel(t, _leafcycle([9, None, [3], 'z'])) for t in all_trees(3)]
     types = (dict, Dict, dictattr)
+    # every tree again with a root of one mapping class and branches of another (Dict(a = 1, b = dict(...)) is the usual shape): what counts as a
+    # branch must not depend on the class of the root
+    ts = ts + [_mix(t, outer, inner) for t in ts[::3] for outer, inner in ((Dict, dict), (dictattr, dict), (Dict, dictattr), (dict, Dict))]
     for t in ts:
         if func.startswith('_tree_copy'):
             t0 = copy.deepcopy(t)
@@ -103,6 +106,12 @@ def frame(call):
             if t != t0 or u != u0:
                 return dict(fails=True, detail='%s with t = %r, u = %r changed its operands to %r, %r' % (func or 'tree_update', t0, u0, t, u))
     return dict(fails=False, detail='no operand changed on %d x %d tree pairs' % (len(ts), len(us)))
+
+
+def _mix(t, outer, inner, top=True):
+    if not isinstance(t, dict):
+        return t
+    return (outer if top else inner)({k: _mix(v, outer, inner, False) for k, v in t.items()})
 
 
 def projection(call):
